@@ -23,7 +23,7 @@ type SimCfg struct {
 	Limit   int64  // nesting limit of the spec entry point (-1: none)
 	Data    string
 	Pos     string
-	Delta   int64 // top == depth - Delta
+	Delta   int64               // top == depth - Delta
 	CutPos  map[string]string   // label pattern -> position expression
 	CutKey  map[string][]string // label pattern -> extra key cells
 	Stack   string
@@ -109,7 +109,6 @@ func (ex *Exec) Rend(arr, k *Term) *Term   { return App(ex.rName("end", arr), BV
 func (ex *Exec) Rframe(arr, k *Term) *Term {
 	return App(ex.rName("frame", arr), ArraySort(BV(64), BV(8)), k)
 }
-
 
 // Number registers of the spec run: what the number token being read denotes, as a left fold
 // over its bytes. mant: value of the first (at most 19) mantissa digits, leading zeros counted as
